@@ -15,10 +15,11 @@ ASSUME = [
     'jobs; every job succeeds',
     'operator alphabet: trigger / set --out / set --pre=all of single '
     'instances with --flow=new | none | N | all (default) and --wait; the '
-    'alphabet is partitioned into profiles by the first command, each profile'
-    ' offers its commands at every main-loop boundary; budget 2 (quick) / 3 '
-    '(thorough) commands per execution; one stop --now --now + restart at any'
-    ' boundary after the first command',
+    'alphabet is partitioned into profiles (see bounds), each profile offers '
+    'its commands at every main-loop boundary unless marked early (= before '
+    'the first job launch) / after-restart; 1-2 commands per execution in '
+    'quick, up to 3 in thorough; in the restart profiles one stop --now --now'
+    ' + restart at any boundary between two commands',
     'finished-and-complete = the instance left the pool succeeded with its '
     'outputs complete (real job or forced by `cylc set`) while carrying the '
     'flow; a manual trigger of the instance itself erases that record for the'
@@ -97,27 +98,22 @@ def rows(tier: str):
     if tier == 'quick':
         return q
     return q + [
-        ('paused-budget3', 'chain2',
-         [[trig(b, 'new'), trig(b, '3')], [trig(b, 'new'), trig(a, 'new')],
-          [trig(b, 'new')]], 1, None, PAUSED),
-        ('c2-3-new-new', 'chain2',
-         [[trig(b, '3')], [trig(b, 'new')], [trig(b, 'new')]], 1,
-         ['early', 'any', 'any'], {}),
-        ('chain-new-new-r', 'chain',
-         [[trig(a, 'new')], [trig(a, 'new'), trig(c, 'new')]], 1, None, {}),
-        ('chain-3-new-r', 'chain',
-         [[trig(c, '3')], [trig(a, 'new'), setout(b, 'new')]], 1, None, {}),
-        ('chain-rerun-r', 'chain',
-         [[trig(a, '1')], [trig(b, 'new'), setpre(c, '1')]], 1, None, {}),
-        ('diamond-new-all', 'diamond',
-         [[trig(a, 'new')], [trig(b, 'all')]], 0, None, {}),
-        ('chain-none-r', 'chain',
-         [[trig(b, 'none')], [trig(a, 'new'), trig(a, 'all')]], 1, None, {}),
-        ('ordiamond-new', 'ordiamond',
-         [[trig(a, 'new')], [trig(b, '1')]], 0, None, {}),
+        # three commands: explicit out-of-sequence number, then two new flows
+        ('paused-3-new-new', 'chain2',
+         [[trig(b, '3')], [trig(b, 'new')], [trig(b, 'new')]], 1, None,
+         PAUSED),
+        ('chain-3-restart-new', 'chain',
+         [[trig(c, '3')], [trig(a, 'new'), setout(b, 'new')]], 1,
+         ['early', 'after-restart'], {}),
+        ('chain-new-new', 'chain',
+         [[trig(a, 'new')], [trig(a, 'new'), trig(c, 'new')]], 0, None, {}),
+        ('chain-rerun-2', 'chain',
+         [[trig(a, '1')], [trig(b, 'new'), setpre(c, '1')]], 0, None, {}),
+        ('chain-none-new', 'chain',
+         [[trig(b, 'none')], [trig(a, 'new')]], 0, None, {}),
+        ('ordiamond-new', 'ordiamond', [[trig(a, 'new')]], 0, None, {}),
         ('chain-set-set', 'chain',
-         [[setout(a, 'new'), setpre(c, '2')], [setout(b, '1', True)]], 0,
-         None, {}),
+         [[setout(a, 'new')], [setout(b, '1', True)]], 0, None, {}),
     ]
 
 
@@ -161,8 +157,20 @@ def run(ctx: Ctx) -> Result:
     return result_from(
         ctx, st, prop='C08',
         bounds={'workflows': [s['name'] for s in specs],
-                'operator commands per execution': ctx.pick(2, 3),
-                'restarts': 1},
+                'profiles': {
+                    s['name']: {
+                        'commands': [[f"{n} {' '.join(k['tasks'])} "
+                                      f"flow={','.join(k['flow']) or 'all'}"
+                                      f"{' wait' if k.get('flow_wait') else ''}"
+                                      f"{' pre=all' if k.get('prerequisites') else ''}"
+                                      f"{' out' if 'outputs' in k else ''}"
+                                      for n, k in ops]
+                                     for ops in s['op_lists']],
+                        'offered': s['whens'] or 'every boundary',
+                        'restarts': s['restarts']}
+                    for s in specs},
+                'operator commands per execution': ctx.pick('<=2', '<=3'),
+                'restarts': '<=1'},
         assumptions=ASSUME, min_states=100,
         extra_cov={'observed (lower bounds, per-process counters)': seen})
 
